@@ -41,6 +41,12 @@ STEPS = {"s1": 40, "s2": 60}
 ORD = {"o4": 4, "o6": 6, "o8": 8}
 
 MAX_REPORT = 12
+_T0 = time.time()
+
+
+def dbg(*a):
+    if os.environ.get("VERIF_DEBUG"):
+        print(f"[c20 {time.time() - _T0:7.1f}s]", *a, file=sys.stderr, flush=True)
 
 
 # ======================================================================================
@@ -477,9 +483,11 @@ def part_orbit(ck: Check, fx: Fx, rec: CacheRecorder, dictmode: str, rnd: random
     flags["DictMode"] = dictmode if dictmode in ("keys", "items") else "keys"
     ck.part("orbit_model", live_flags=dict(flags))
 
+    dbg("flags")
     # (a) the repaired design satisfies the requirement (exhaustive within the bound)
     r = tlc(OBJ / "MCOrbitObject.tla", CFG / f"OrbitObject.repaired.{ck.tier}.cfg", timeout=1500)
     ck.model(f"OrbitObject.repaired.{ck.tier}", r)
+    dbg("repaired done")
     # (b) the transcription of the working tree: structural invariants + emission of histories
     cfg = make_cfg(f"OrbitObject.asis.{ck.tier}.cfg", flags, wd, "OrbitObject.live.cfg")
     r = tlc(OBJ / "MCOrbitObject.tla", cfg, timeout=1500, workers=8)
@@ -488,12 +496,14 @@ def part_orbit(ck: Check, fx: Fx, rec: CacheRecorder, dictmode: str, rnd: random
     n_states = len(hists)
     model_stale = sum(1 for h in hists if h and h[-1]["stale"])
     hists = drop_prefixes(hists)
+    dbg("emission done")
     # (c) the requirement on the live transcription: TLC's verdict is a prediction, confirmed below on the code
     cfgr = make_cfg("OrbitObject.asis.req.cfg", flags, wd, "OrbitObject.livereq.cfg")
     rr = tlc(OBJ / "MCOrbitObject.tla", cfgr, timeout=900, workers=8)
     ck.model("OrbitObject.live.requirement", rr, expect_ok=False)
     ck.part("orbit_model", histories_emitted=n_states, maximal_histories=len(hists), model_predicts_stale=model_stale,
             tlc_requirement_verdict_on_live_transcription=rr.invariant_violated or "holds")
+    dbg("req done")
     # (d) long random walks
     cfgs = make_cfg("OrbitObject.asis.sim.cfg", flags, wd, "OrbitObject.livesim.cfg")
     nwalks = 150 if ck.quick else 1500
@@ -504,6 +514,7 @@ def part_orbit(ck: Check, fx: Fx, rec: CacheRecorder, dictmode: str, rnd: random
     if len(walks) < nwalks // 2:
         raise MachineryError(f"simulation produced only {len(walks)} walks")
 
+    dbg("sim done")
     budget = 2500 if ck.quick else 10 ** 9
     if len(hists) > budget:
         hists = rnd.sample(hists, budget)
@@ -534,6 +545,7 @@ def part_orbit(ck: Check, fx: Fx, rec: CacheRecorder, dictmode: str, rnd: random
             wall_s=round(time.time() - t0, 1), twin_evaluations=sum(w.twin_evals for w in worlds.values()),
             distinct_logical_states=sum(len(w.obs_memo) for w in worlds.values()), **notes)
 
+    dbg("replay done")
     # determinism of the twin oracle: re-evaluate memoised twin steps on brand-new objects
     nondet = 0
     for w in worlds.values():
@@ -546,6 +558,7 @@ def part_orbit(ck: Check, fx: Fx, rec: CacheRecorder, dictmode: str, rnd: random
     if nondet:
         raise MachineryError("twin oracle is not deterministic (same inputs, different bits)")
 
+    dbg("determinism done")
     # (e) code -> spec: TLC validates the recorded events
     lyap = [t for t in traces if t["fam"] == "lyapunov"]
     tcfg = {m: make_cfg(f"OrbitObjectTrace.{m}.cfg", flags, wd, f"OrbitObjectTrace.{m}.live.cfg") for m in ("Strict", "Loose")}
@@ -573,6 +586,7 @@ def part_orbit(ck: Check, fx: Fx, rec: CacheRecorder, dictmode: str, rnd: random
         ck.sample({"history": [[e["op"], e["arg"]] for e in traces[len(traces) // 2]["ev"]][:8],
                    "events": traces[len(traces) // 2]["ev"][:3]})
 
+    dbg("trace validation done")
     # (f) binding self-test: corrupted traces must be rejected by the strict trace spec
     good = [i for i, t in enumerate(traces) if i not in srej and len(t["ev"]) >= 4
             and any(e["hits"] for e in t["ev"])]
